@@ -101,14 +101,16 @@ MM(m) == [ty |-> m.ty, ifc |-> m.ifc, mem |-> m.mem, path |-> m.path, dst |-> m.
 World(cs, un, qs, rl, mn) == [cs |-> cs, un |-> un, qs |-> qs, rl |-> rl, mn |-> mn]
 Now == World(cst, uname, queue, rules, mon)
 
-\* monitors that want m
+\* monitors that want m.  A connection is served copies as soon as it holds monitor filters (they are installed
+\* before BecomeMonitor releases the caller's names); the addressed recipient itself never gets a second copy.
 Capture(W, m, src, adr) ==
-  LET R == {r \in Slot : /\ W.cs[r] = "monitor"
-                         /\ (W.mn[r] = <<>> \/ \E i \in 1..Len(W.mn[r]) :
+  LET R == {r \in Slot : /\ W.mn[r] # <<>> /\ r # adr
+                         /\ \E i \in 1..Len(W.mn[r]) :
                                RuleMatches([W.mn[r][i] EXCEPT !.eav = TRUE], MM(m),
-                                           PrimNames(W.qs, W.un, src), adr # NoSlot, PrimNames(W.qs, W.un, adr)))}
+                                           PrimNames(W.qs, W.un, src), adr # NoSlot, PrimNames(W.qs, W.un, adr))}
       sq == SeqOfSet(R) IN
-  [i \in 1..Len(sq) |-> To(sq[i], m)]
+  \* (nothing is captured at all while the list of established monitors is empty)
+  IF \E r \in Slot : W.cs[r] = "monitor" THEN [i \in 1..Len(sq) |-> To(sq[i], m)] ELSE <<>>
 
 \* connections holding a match rule that matches m (the addressed recipient is served separately)
 RuleRecipients(W, m, src, adr) ==
@@ -458,11 +460,11 @@ BecomeMonitor(s, ser, fl, texts, flags, order) ==
      ELSE IF ~Privileged(s) THEN AnswerErr(s, call, E_AccessDenied)
      ELSE IF flags # 0 THEN AnswerErr(s, call, E_InvalidArgs)
      ELSE IF ~pr.ok THEN AnswerErr(s, call, IF pr.err = "LimitsExceeded" THEN E_LimitsExceeded ELSE E_MatchRuleInvalid)
-     ELSE LET W0 == Now
+     ELSE LET filt == IF pr.rules = <<>> THEN <<EmptyRule>> ELSE pr.rules
+              W0 == [Now EXCEPT !.mn = [mon EXCEPT ![s] = filt]]
               d == DropNames(W0, s, order, 1)
               W1 == [W0 EXCEPT !.qs = d.qs]
               rl2 == IF rules[s] # <<>> THEN PruneRules(rules, s, uname[s]) ELSE rules
-              filt == IF pr.rules = <<>> THEN <<EmptyRule>> ELSE pr.rules
               kept == SelectSeq(pend, LAMBDA p : p.caller # s) IN
           /\ queue' = d.qs
           /\ rules' = rl2
